@@ -274,7 +274,7 @@ def main(run: core.Run, only=None):
     squares = [[[x, y], [x + 10, y], [x + 10, y + 10], [x, y + 10]] for x in (0, 10, 20) for y in (0, 10, 20)]
     cases = []
     if quick:
-        plan = [(3, 8, 1, [0, 1], [[], [0]], [None]), (4, 40, 3, [0, 3], [[], [3], [12, 13]], [None]), (5, 600, 5, [1], [[], [6]], [None, squares[8]])]
+        plan = [(3, 8, 1, [0, 1], [[], [0]], [None]), (4, 40, 3, [0, 3], [[], [3], [12, 13]], [None]), (5, 600, 5, [1], [[], [6]], [None, squares[8], squares[0]])]
     else:
         plan = [(3, 1, 0, [0, 1, 2, 3], [[], [0], [4, 9]], [None, squares[4]]), (4, 4, 1, [0, 1, 2, 3], [[], [3], [1, 11]], [None]),
                 (4, 16, 2, [0, 3], [[7], [8], [2, 5], [12, 13]], [None, squares[0], squares[8]]), (5, 60, 7, [0, 1, 3], [[], [6], [10]], [None]),
